@@ -112,8 +112,14 @@ Fixpoint tgt_insert (x : tgt) (l : list tgt) : list tgt :=
   | y :: r => match tgt_cmp x y with Gt => y :: tgt_insert x r | _ => x :: l end
   end.
 Definition tgt_sort (l : list tgt) : list tgt := fold_right tgt_insert [] l.
-Definition obs_table (t : table) : tbl :=
-  tgt_sort (map (fun x => match x with (h, p, tg) => (h, p, t_svc tg, t_url tg) end) (flat t)).
+(* [wt]: the destination component also carries the target's tags (URL, NUL, tags joined by
+   commas) - used where the harness reads the table itself; the watchBackend driver reports
+   (host, path, service, URL) only *)
+Definition url_tags (wt : bool) (url : str) (tags : list str) : str :=
+  if wt then url ++ 0 :: join tags [44] else url.
+Definition obs_table_g (wt : bool) (t : table) : tbl :=
+  tgt_sort (map (fun x => match x with (h, p, tg) => (h, p, t_svc tg, url_tags wt (t_url tg) (t_tags tg)) end) (flat t)).
+Definition obs_table : table -> tbl := obs_table_g false.
 Definition tbl_subset (a b : tbl) : bool := forallb (fun x => existsb (tgt_eqb x) b) a.
 
 (* the property's reading, per catalog entry: a service check under the entry's name on its
@@ -126,22 +132,23 @@ Definition inst_healthy_b (status : list str) (strict : bool) (checks : list hch
 (* C01_svc_table_iff's right-hand side, for ALL catalogs: the targets of the routed intents
    (healthy named instance, advertised prefix, command accepted by NewTable on its own), as the
    parsed command says them *)
-Definition expected_targets (pw : str -> outcome wt) (canon : str -> option str) (gl : str -> bool)
+Definition expected_targets_g (wt : bool) (pw : str -> outcome WtF64.wt) (canon : str -> option str) (gl : str -> bool)
            (env : env_t) (prefix : str)
            (status : list str) (strict : bool) (checks : list hcheck) (rcat : list rentry) : tbl :=
   flat_map (fun r =>
     if inst_healthy_b status strict checks r then
       flat_map (fun i =>
-        if validate pw canon gl (render_intent i) then
+        if validate_intent pw canon gl i then
           match parse_line pw (render_intent i) with
           | Ok (Some d) => match canon (d_dst d) with
-                           | Some u => [(lower (fst (hostpath (d_src d))), snd (hostpath (d_src d)), d_svc d, u)]
+                           | Some u => [(lower (fst (hostpath (d_src d))), snd (hostpath (d_src d)), d_svc d, url_tags wt u (d_tags d))]
                            | None => []
                            end
           | _ => []
           end
         else []) (intents env prefix (r_reg r))
     else []) rcat.
+Definition expected_targets := expected_targets_g false.
 
 Inductive case :=
 (* passingServices(checks, status, strict): positions of the returned checks *)
@@ -162,10 +169,17 @@ Inductive case :=
 | CFail (health_err : bool) (failing : list str) (prefix : str) (status : list str) (strict : bool)
         (checks : list hcheck) (catalog : list centry) (pushed : bool)
 (* end to end: the text pushed by the real backend for the state (checks, rcat) and the table the
-   real route.NewTable builds from it, against the composed model of Model/RegistryTable.v *)
+   real route.NewTable builds from it, against the composed model of Model/RegistryTable.v;
+   [wt]: the table observation carries the targets' tags (the harness read the table itself)
+   or not (it came from the watchBackend driver) *)
 | CE2E (env : env_t) (prefix : str) (urls : list (str * option str)) (badglobs : list str)
        (status : list str) (strict : bool) (checks : list hcheck) (rcat : list rentry)
-       (impl_text : str) (impl_tbl : option tbl).
+       (impl_text : str) (impl_tbl : option tbl) (wt : bool)
+(* the same through the real watchBackend with the operator's manual text [mtext] (from the real
+   watchKV) on top: the table installed before ([prev]) and after ([impl]) the delivery *)
+| CE2EM (env : env_t) (prefix : str) (urls : list (str * option str)) (badglobs : list str)
+        (status : list str) (strict : bool) (checks : list hcheck) (rcat : list rentry)
+        (mtext : str) (prev impl : tbl).
 
 Definition check_case (c : case) : N :=
   match c with
@@ -198,7 +212,11 @@ Definition check_case (c : case) : N :=
       let m := svc_config prefix status strict checks catalog in
       let same := match m with Ok t => beq t impl | _ => false end in
       let exp := expected_lines prefix status strict checks catalog in
-      let spec := if consistent then beq impl (join (sort_desc exp) [10]) else same in
+      (* the property is silent on the order of the lines: the spec compares them as a multiset
+         (the exact text, order included, is part of [same]); tag-inconsistent states are
+         outside what Consul produces: correspondence with the model only *)
+      let lines := match impl with [] => [] | _ => split_byte impl 10 end in
+      let spec := if consistent then list_eqb beq (sort_desc lines) (sort_desc exp) else same in
       let all := flat_map e_cmds catalog in
       verdict same spec None (negb (Nat.eqb (length exp) 0) && negb (Nat.eqb (length exp) (length all)))
   | CWatch texts builds evs impl =>
@@ -228,21 +246,46 @@ Definition check_case (c : case) : N :=
                                       && existsb (beq (c_sname c)) failing) checks in
       let spec := if health_err || needed then negb pushed else pushed in
       verdict same spec None (health_err || needed)
-  | CE2E env prefix urls bad status strict checks rcat itext itbl =>
+  | CE2E env prefix urls bad status strict checks rcat itext itbl wt =>
       let canon := canon_of urls in
       let gl := glob_of bad in
       let mtext := registry_config pweight_dec canon gl env prefix status strict checks rcat in
       let mtbl := match mtext with
-                  | Ok t => match new_table pweight_dec canon gl t with Ok tb => Some (obs_table tb) | _ => None end
+                  | Ok t => match new_table pweight_dec canon gl t with Ok tb => Some (obs_table_g wt tb) | _ => None end
                   | _ => None
                   end in
       let same := match mtext with Ok t => beq t itext | _ => false end && opt_eqb tbl_eqb itbl mtbl in
-      let exp := expected_targets pweight_dec canon gl env prefix status strict checks rcat in
+      let exp := expected_targets_g wt pweight_dec canon gl env prefix status strict checks rcat in
       (* C01_svc_table_iff, evaluated on the implementation's table: accepted, and exactly the
          routed intents' targets - whatever the catalog *)
       let spec := match itbl with Some t => tbl_subset t exp && tbl_subset exp t | None => false end in
-      let some_dropped := existsb (fun r => existsb (fun i => negb (validate pweight_dec canon gl (render_intent i)))
+      let some_dropped := existsb (fun r => existsb (fun i => negb (validate_intent pweight_dec canon gl i))
                                                     (intents env prefix (r_reg r))) rcat in
       verdict same spec None (negb (Nat.eqb (length exp) 0)
                               && (existsb (fun r => negb (inst_healthy_b status strict checks r)) rcat || some_dropped))
+  | CE2EM env prefix urls bad status strict checks rcat mtext prev impl =>
+      let canon := canon_of urls in
+      let gl := glob_of bad in
+      (* model: the combined text through NewTable; a rejected text keeps the previous table *)
+      let m := match registry_config pweight_dec canon gl env prefix status strict checks rcat with
+               | Ok t => match new_table pweight_dec canon gl (next_text t mtext) with
+                         | Ok tb => obs_table tb
+                         | _ => prev
+                         end
+               | _ => prev
+               end in
+      let same := tbl_eqb impl m in
+      (* spec (C01_svc_table_any_manual / C01_svc_table_with_manual_adds): unless the table was
+         left as it was, every target is a routed intent's or a manual 'route add''s - del and
+         weight bring nothing in - and for a manual text of adds only nothing is missing *)
+      let exp := expected_targets pweight_dec canon gl env prefix status strict checks rcat in
+      let dm := match parse pweight_dec mtext with Ok ds => ds | _ => [] end in
+      let adds := flat_map (fun d => match d_cmd d, canon (d_dst d) with
+                                     | CmdAdd, Some u => [(lower (fst (hostpath (d_src d))), snd (hostpath (d_src d)), d_svc d, u)]
+                                     | _, _ => []
+                                     end) dm in
+      let adds_only := forallb (fun d => match d_cmd d with CmdAdd => true | _ => false end) dm in
+      let spec := tbl_eqb impl prev
+                  || (tbl_subset impl (exp ++ adds) && (negb adds_only || tbl_subset (exp ++ adds) impl)) in
+      verdict same spec None (negb (tbl_eqb impl prev) && negb (Nat.eqb (length dm) 0))
   end.
